@@ -131,8 +131,14 @@ Archive::Shape Deserializer::deserializeShape(char tag)
         CHECK_POS();
 
         // Check for END_OF_ITEM as a demarcation between Shapes
-        const uint8_t op_ = deserializeBytes<uint8_t>();
-        if (op_ == Serializer::END_OF_ITEM)
+        // (peeking, because otherwise the byte is the opening quote
+        //  of the variable's name)
+        if (in.peek() == Serializer::END_OF_ITEM)
+        {
+            in.get();
+            break;
+        }
+        else if (in.eof())
         {
             break;
         }
